@@ -6,15 +6,18 @@ CONSTANTS
   FFSeq <- DefFFSeq
   CFSeq <- DefCFSeq
   Ops <- AllOps
-  Modes <- ModesTS
-  NT = 3
-  NS = 1
+  Modes <- ModesAll
+  NT = 4
+  NS = 2
   MaxV = 4
   MaxFuncs = 2
   MaxSuite = 2
   MaxDepth = 3
   MaxTop = 2
   ExtraT = 1
+  ExtraC = 3
+  ExtraM = 1
+  Coarse = FALSE
 SPECIFICATION MCSpec
 VIEW View
 INVARIANT Emit
